@@ -18,6 +18,7 @@
   into permutations INSIDE each (phase, sub-phase) group.
 -/
 import VsgProofs.Lemmas.Frame
+import VsgProofs.Lemmas.BFull2Affix   -- wp2b_affix
 namespace Vsgm.C06
 open Vsgm Vsgm.Frame
 
@@ -212,5 +213,33 @@ theorem gated_disable_fails :
     (Frame.checkRules false [] (disable ["a_001"] [Gated.r1, Gated.r2]) 0 ()).log ≠
       ((Frame.checkRules false [] [Gated.r1, Gated.r2] 0 ()).log).filter (fun e => !(["a_001"].contains e.1)) := by
   decide
+
+/-! ### BEGIN wp2b_affix (token_prefix / token_suffix: a rule whose analysis is inside the model) -/
+
+section wp2b_affix
+open BFull2
+
+/-- the analysis of a naming rule is a FUNCTION OF THE TOKEN LIST ALONE (index recomputed from it, `lower` of the
+    values, the option list): put into any rule list, with any configurations, the frame hypothesis holds for it
+    together with every other pure rule — so `checkRules_readonly`, `_repeat`, `_solo`, `_disable`, `_order` apply
+    with no hypothesis left for these 52 rules.  (What the model does not see: `lower_value` is cached on the token
+    object at creation and the rule object's `regexp_exceptions` list grows on every analysis — both outside the
+    token list; the correspondence run checks that the real analysis leaves every token object and value as it was.) -/
+theorem bfull2_affix_frame (rs : List Rule) (cfg : RuleCfg) (V : TM.View Tok) (lower : Str → Str) (exc : Str → Bool)
+    (P : Affix.Params) :
+    Frame (fun f : List Tok => f) (((cfg, Affix.sem V lower exc P) :: rs).map ofPure) :=
+  frame_ofPure _
+
+/-- disabling any set of other rules does not change what the naming rule reports -/
+theorem bfull2_affix_disable (rs : List Rule) (cfg : RuleCfg) (V : TM.View Tok) (lower : Str → Str) (exc : Str → Bool)
+    (P : Affix.Params) (D : List String) (x : List Tok) :
+    C06.V [] (disable D (((cfg, Affix.sem V lower exc P) :: rs).map ofPure)) x =
+      (C06.V [] (((cfg, Affix.sem V lower exc P) :: rs).map ofPure) x).filter (fun e => !(D.contains e.1)) :=
+  checkRules_disable (bfull2_affix_frame rs cfg V lower exc P) D [] x
+
+end wp2b_affix
+
+/-! ### END wp2b_affix -/
+
 
 end Vsgm.C06
